@@ -7,8 +7,6 @@ import (
 	"strings"
 	"sync"
 
-	jsonpatch "github.com/evanphx/json-patch/v5"
-
 	"verifharness/jsonread"
 	"verifharness/lib"
 )
@@ -166,6 +164,20 @@ func (e *engine) checkPatchLine(worker int, raw []byte) error {
 		return err
 	}
 	e.rep.Count("transitions", 1)
+	if lib.Dialect == "v4" {
+		var ops []*wireOp
+		for _, o := range ln.Ops {
+			var op wireOp
+			if err := json.Unmarshal(o, &op); err != nil {
+				return err
+			}
+			ops = append(ops, &op)
+		}
+		if !legacyDomain(&ln, ops) {
+			e.rep.Label("LegacyOutsideDomain")
+			return nil
+		}
+	}
 	e.rep.Label(ln.Lab)
 
 	// two spellings: canonical, and (value-level properties only) a random re-spelling
@@ -199,7 +211,7 @@ func (e *engine) checkPatchLine(worker int, raw []byte) error {
 		e.checkPatchCase(worker, c, seed, want)
 	}
 	// the empty patch, once per (seed, options): an identity on value, order and literals
-	if len(ln.Ops) == 1 {
+	if len(ln.Ops) == 1 && lib.Supported(ln.Opts) {
 		key := string(ln.Seed) + fmt.Sprint(ln.Opts)
 		if _, loaded := seenSeeds.LoadOrStore(key, true); !loaded {
 			el := ln
@@ -231,30 +243,75 @@ type applyResult struct {
 	pan        string
 }
 
-// the package-level defaults are process-wide: runs that set them exclude each other
-var defaultsMu sync.Mutex
-
 func (e *engine) runApply(worker int, doc, patch []byte, o lib.Opts, viaDefaults bool, what func() *lib.Violation) applyResult {
 	var r applyResult
 	r.pan = e.wd.Guard(worker, what, func() {
 		if viaDefaults {
-			defaultsMu.Lock()
-			defer defaultsMu.Unlock()
-			oldL, oldN := jsonpatch.AccumulatedCopySizeLimit, jsonpatch.SupportNegativeIndices
-			jsonpatch.AccumulatedCopySizeLimit, jsonpatch.SupportNegativeIndices = int64(o.Limit), o.Neg
-			defer func() { jsonpatch.AccumulatedCopySizeLimit, jsonpatch.SupportNegativeIndices = oldL, oldN }()
-			p, derr := jsonpatch.DecodePatch(patch)
-			if derr != nil {
-				r.derr = derr
-				return
-			}
-			r.out, r.aerr = p.Apply(doc)
+			r.out, r.aerr, r.derr = lib.ApplyDefaults(doc, patch, o.Limit, o.Neg)
 			return
 		}
 		r.out, r.aerr, r.derr = lib.Apply(doc, patch, o, "")
 	})
 	e.rep.Count("executions", 1)
 	return r
+}
+
+// ---------------------------------------------------------------------------
+// The legacy root package (C18, and the legacy clauses of C04/C12) claims less than v5:
+// legacyDomain decides, from the shape of the inputs and the specification's label only,
+// whether a behaviour is inside what C18 states.
+// ---------------------------------------------------------------------------
+
+var legacyErrLabels = map[string]bool{
+	"TestFail": true, "TestFailAbsent": true,
+	"RemoveAbsentMember": true, "RemoveNoParent": true, "RemoveBadIndex": true,
+	"MoveFromAbsentMember": true, "MoveFromNoParent": true, "MoveFromBadIndex": true,
+	"AddBadIndex": true, "ReplaceBadIndex": true, "TestBadIndex": true, "CopyFromBadIndex": true,
+	"CopyOverLimit": true,
+}
+
+func hasAwkwardString(v *jsonread.Value) bool {
+	switch v.T {
+	case "str":
+		for _, c := range v.Cp {
+			if c == '<' || c == '>' || c == '&' || c == '"' || c == '\\' || c < 0x20 || c == 0x2028 || c == 0x2029 {
+				return true
+			}
+		}
+	case "arr":
+		for _, e := range v.E {
+			if hasAwkwardString(e) {
+				return true
+			}
+		}
+	case "obj":
+		for _, m := range v.M {
+			if hasAwkwardString(jsonread.StrCp(m.K)) || hasAwkwardString(m.V) {
+				return true
+			}
+		}
+	}
+	return false
+}
+
+func legacyDomain(ln *patchLine, ops []*wireOp) bool {
+	if !lib.Supported(ln.Opts) {
+		return false
+	}
+	for _, op := range ops {
+		if (op.Op == "add" && len(op.Path) == 0) || (op.Op == "copy" && len(op.From) == 0) {
+			return false // root-replacing add and copy from "": not offered by the legacy package
+		}
+		if op.Op == "test" && !op.NoVal {
+			if v, err := jsonread.FromWire(op.Value); err != nil || hasAwkwardString(v) {
+				return false // the legacy package compares string spellings
+			}
+		}
+	}
+	if ln.Status == "err" && !legacyErrLabels[ln.Lab] {
+		return false
+	}
+	return true
 }
 
 func (e *engine) checkPatchCase(worker int, c *patchCase, seed, want *jsonread.Value) {
@@ -437,7 +494,7 @@ func (e *engine) checkCopyLimit(worker int, c *patchCase, r applyResult, ec lib.
 		o := ln.Opts
 		o.Limit = pb.limit
 		vias := []bool{false}
-		if o.Esc && !o.Allow && !o.Ensure {
+		if o.Esc && !o.Allow && !o.Ensure && lib.Dialect == "v5" {
 			vias = append(vias, true) // the package-level default, through Patch.Apply
 		}
 		for _, via := range vias {
